@@ -88,7 +88,7 @@ def _run_cargo(work, outdir, inventory, roots_filter=None):
         'CARGO_NET_OFFLINE': 'true',
         'LD_LIBRARY_PATH': _sysroot_lib() + ':' + env.get('LD_LIBRARY_PATH', ''),
         'MIRSUM_OUT': outdir,
-        'RUSTFLAGS': '-Zmir-opt-level=0 -Zalways-encode-mir -Awarnings',
+        'RUSTFLAGS': '-Zmir-opt-level=0 -Zalways-encode-mir -Awarnings -Cdebug-assertions=off -Coverflow-checks=on',
         'RUSTC_WRAPPER': ENGINE,
         'CARGO_TARGET_DIR': os.path.join(work, 'target'),
         'CARGO_INCREMENTAL': '0',
